@@ -11,22 +11,6 @@ variables passed on, and with surplus arguments (ignored by the compiler).
 
 Position<…> literals are kept out of macro bodies and of calls made from macro bodies: a macro with a position mark
 that is expanded inside another macro makes the real compiler loop forever (finding A16 of DESIGN.md, C05/C08/C10).
-"""Generator of ExplorerScript programs with macros and of multi-file layouts (property C05).
-
-A *case* is a JSON-able dict
-  {"name", "tags": [...], "files": {relpath: surface AST}, "main": relpath, "lookup": [str], "dirs": [relpath],
-   "expect": "ok" | "missing" | "cycle" | "routines_in_import" | "dot_component" | "too_few_args" | "macro_cycle" | "dir_candidate"}
-Paths are relative to a temporary root the worker creates under /tmp; `{ROOT}` inside import strings / lookup paths
-stands for that root.  Surface ASTs are those of harness/gen/surface.py (`macros` = [{"name","params","body"}]).
-
-Three families:
-  dag_cases     every acyclic call-graph shape with <= n macros x every definition order x call orders, plain bodies
-  rich_case     random DAG, bodies from ProgGen (labels/jumps with the same names everywhere, return nested in if/loops,
-                loops, switches), all argument kinds, parameters passed on, shadowing parameter names, too many arguments,
-                calls inside blocks, several calls of one macro
-  layout_case   macros spread over imported files: relative / absolute / lookup-path imports, shadowing between lookup
-                paths, nested and diamond imports; invalid layouts (missing file, import cycle, routines in an imported
-                file, '.'/'..' components, empty lookup list)
 """
 from __future__ import annotations
 
@@ -348,968 +332,3 @@ def invalid_variant(p: dict, rnd: random.Random) -> tuple[dict, str] | None:
     if not names:
         return None
     return q, "+".join(names)
-import itertools
-import posixpath
-import random
-from typing import Any, Iterator
-
-from .programs import CONSTS, LANGS, Cfg, ProgGen
-from .surface import PERF_VAR
-
-ROOT = "{ROOT}"
-PARAM_POOL = ["$a", "$b", "$c", "$x", "$X", "$v2"]     # "$X", "$v2" are also game-variable names used by ProgGen bodies
-GAME_VARS = ["$SCENARIO_MAIN", "$X", "$EVENT_LOCAL", "$v2"]
-
-
-# ----------------------------------------------------------------------------------------------------------------------
-# acyclic call graphs
-# ----------------------------------------------------------------------------------------------------------------------
-def all_dags(n: int) -> Iterator[list[list[int]]]:
-    """calls[i] = macros (j > i) that macro i calls: every DAG has such a numbering"""
-    pairs = [(i, j) for i in range(n) for j in range(i + 1, n)]
-    for mask in range(1 << len(pairs)):
-        calls: list[list[int]] = [[] for _ in range(n)]
-        for b, (i, j) in enumerate(pairs):
-            if mask >> b & 1:
-                calls[i].append(j)
-        yield calls
-
-
-def canon(calls: list[list[int]]) -> tuple:
-    n = len(calls)
-    edges = [(i, j) for i in range(n) for j in calls[i]]
-    best = None
-    for perm in itertools.permutations(range(n)):
-        key = tuple(sorted((perm[i], perm[j]) for i, j in edges))
-        if best is None or key < best:
-            best = key
-    return (n, best)
-
-
-_SHAPES: dict[int, list[list[list[int]]]] = {}
-
-
-def dag_shapes(n: int) -> list[list[list[int]]]:
-    """one representative per isomorphism class of DAGs with exactly n vertices (1, 2, 6, 31, 302 for n = 1..5)"""
-    if n not in _SHAPES:
-        seen: dict = {}
-        for c in all_dags(n):
-            seen.setdefault(canon(c), c)
-        _SHAPES[n] = list(seen.values())
-    return _SHAPES[n]
-
-
-def shape_info(calls: list[list[int]]) -> dict:
-    """statistics of a call graph (edges caller -> callee)"""
-    n = len(calls)
-    memo: dict[int, int] = {}
-
-    def depth(i: int) -> int:
-        if i not in memo:
-            memo[i] = 1 + max([depth(j) for j in calls[i]], default=0)
-        return memo[i]
-    # path lengths between all pairs (sets), to find diamonds and the "paths of different length" class
-    lens: dict[tuple[int, int], set] = {}
-
-    def paths(i: int) -> dict[int, set]:
-        out: dict[int, set] = {i: {0}}
-        for j in calls[i]:
-            for k, ls in paths(j).items():
-                out.setdefault(k, set()).update(l + 1 for l in ls)
-        return out
-    npaths_multi = False
-    ungraded = False
-    for i in range(n):
-        cnt: dict[int, int] = {}
-
-        def count(a: int) -> None:
-            for j in calls[a]:
-                cnt[j] = cnt.get(j, 0) + 1
-                count(j)
-        count(i)
-        if any(v > 1 for v in cnt.values()):
-            npaths_multi = True
-        for k, ls in paths(i).items():
-            lens[(i, k)] = ls
-            if len(ls) > 1:
-                ungraded = True
-    indeg = [0] * n
-    for i in range(n):
-        for j in calls[i]:
-            indeg[j] += 1
-    ne = sum(len(c) for c in calls)
-    return {"n": n, "edges": ne, "depth": max([depth(i) for i in range(n)], default=0),
-            "chain": n >= 2 and ne == n - 1 and all(len(c) <= 1 for c in calls) and max(indeg, default=0) <= 1 and max([depth(i) for i in range(n)]) == n,
-            "diamond": npaths_multi, "shared_callee": any(d >= 2 for d in indeg), "multi_callee": any(len(c) >= 2 for c in calls),
-            "unequal_paths": ungraded, "isolated": sum(1 for i in range(n) if not calls[i] and indeg[i] == 0)}
-
-
-# ----------------------------------------------------------------------------------------------------------------------
-# small AST helpers
-# ----------------------------------------------------------------------------------------------------------------------
-def op(name: str, *args: dict) -> dict:
-    return {"t": "op", "name": name, "args": list(args)}
-
-
-def I(v: int) -> dict:
-    return {"k": "int", "v": v}
-
-
-def V(name: str) -> dict:
-    return {"k": "var", "v": name}
-
-
-def C(name: str) -> dict:
-    return {"k": "id", "v": name}
-
-
-def call(name: str, *args: dict) -> dict:
-    return {"t": "macrocall", "name": name, "args": list(args)}
-
-
-def blocks_of(body: list) -> list[list]:
-    """all statement lists below `body` (mutable references), parse-tree order"""
-    out: list[list] = []
-
-    def walk(ss: list) -> None:
-        out.append(ss)
-        for s in ss:
-            t = s["t"]
-            if t == "if":
-                for b in s["branches"]:
-                    walk(b["body"])
-                if s.get("else") is not None:
-                    walk(s["else"])
-            elif t == "switch":
-                for c in s["cases"]:
-                    walk(c["body"])
-            elif t in ("forever", "while", "for"):
-                walk(s["body"])
-    walk(body)
-    return out
-
-
-def calls_in(body: list) -> list[dict]:
-    """macro-call statements in parse-tree (textual) order"""
-    out: list[dict] = []
-
-    def walk(ss: list) -> None:
-        for s in ss:
-            t = s["t"]
-            if t == "macrocall":
-                out.append(s)
-            elif t == "if":
-                for b in s["branches"]:
-                    walk(b["body"])
-                if s.get("else") is not None:
-                    walk(s["else"])
-            elif t == "switch":
-                for c in s["cases"]:
-                    walk(c["body"])
-            elif t in ("forever", "while", "for"):
-                walk(s["body"])
-    walk(body)
-    return out
-
-
-def printed_macros(ast: dict) -> list[dict]:
-    """the macros of a file in the order in which they are printed (`order` option of the printer)"""
-    ms = ast.get("macros", [])
-    order = ast.get("order")
-    if not order:
-        return list(ms)
-    return [ms[i] for i in order if i < len(ms)]
-
-
-def abstract_input(ast: dict, imported: list[str]) -> dict:
-    """the abstract input of MacroResolutionOrderVisitor for one file (what lean `macro.order` consumes)"""
-    return {"imported": list(imported), "defs": [[m["name"], [c["name"] for c in calls_in(m["body"])]] for m in printed_macros(ast)]}
-
-
-def has_pos(x: Any) -> bool:
-    if isinstance(x, dict):
-        if x.get("k") == "pos":
-            return True
-        return any(has_pos(v) for v in x.values())
-    if isinstance(x, list):
-        return any(has_pos(v) for v in x)
-    return False
-
-
-def predicts_posmark_hang(files: dict) -> bool:
-    """shape of known finding `macro_posmark_nested_hang`: some file has a macro that calls a macro defined in the same
-    file, and a Position literal occurs in a macro body (of that file or of a file with macros; call arguments included)"""
-    any_pos = any(has_pos(m["body"]) for ast in files.values() for m in ast.get("macros", []))
-    if not any_pos:
-        return False
-    for ast in files.values():
-        names = {m["name"] for m in ast.get("macros", [])}
-        for m in ast.get("macros", []):
-            if any(c["name"] in names for c in calls_in(m["body"])):
-                return True
-    return False
-
-
-# ----------------------------------------------------------------------------------------------------------------------
-# textual inlining: "the program in which every call is replaced by the macro's body with parameters substituted by the
-# call's arguments, `return` leaving only the macro, and the body's labels private to each expansion"
-# ----------------------------------------------------------------------------------------------------------------------
-class Inliner:
-    def __init__(self, macros: dict[str, dict]):
-        self.macros = macros
-        self.n = 0
-
-    def atom(self, a: Any, subst: dict[str, dict]) -> Any:
-        if isinstance(a, dict) and a.get("k") == "var" and a.get("v") in subst and "t" not in a:
-            return copy.deepcopy(subst[a["v"]])
-        return a
-
-    def node(self, x: Any, subst: dict[str, dict]) -> Any:
-        """substitute parameters in everything that is not a statement list"""
-        if isinstance(x, list):
-            return [self.node(y, subst) for y in x]
-        if isinstance(x, dict):
-            if x.get("k") == "var" and "t" not in x:
-                return self.atom(x, subst)
-            return {k: self.node(v, subst) for k, v in x.items()}
-        return x
-
-    def block(self, body: list, subst: dict[str, dict], ren: dict[str, str] | None, end: str | None, depth: int) -> list:
-        out: list = []
-        for s in body:
-            out += self.stmt(s, subst, ren, end, depth)
-        return out
-
-    def stmt(self, s: dict, subst: dict[str, dict], ren: Any, end: str | None, depth: int) -> list:
-        t = s["t"]
-        rn = (lambda n: ren(n)) if ren else (lambda n: n)
-        if t == "macrocall":
-            if depth > 40:
-                raise ValueError("macro recursion")
-            m = self.macros[s["name"]]
-            args = [self.node(a, subst) for a in s["args"]]
-            if len(args) < len(m["params"]):
-                raise ValueError("too few arguments")
-            self.n += 1
-            tag = f"__{m['name']}_{self.n}"
-            inner = dict(subst)
-            inner.update(dict(zip(m["params"], args)))     # innermost binding first, the caller's bindings stay visible
-            endl = "end" + tag
-            body = self.block(m["body"], inner, (lambda n, tag=tag: n + tag), endl, depth + 1)
-            return body + [{"t": "label", "name": endl}]
-        if t in ("label", "jump", "call"):
-            return [dict(s, name=rn(s["name"]))]
-        if t == "ctrl":
-            if s["k"] == "return" and end is not None:
-                return [{"t": "jump", "name": end}]
-            return [dict(s)]
-        if t == "with":
-            inner_s = self.stmt(s["stmt"], subst, ren, end, depth)
-            assert len(inner_s) == 1
-            return [dict(self.node({k: v for k, v in s.items() if k != "stmt"}, subst), stmt=inner_s[0])]
-        if t == "if":
-            return [{"t": "if", "branches": [{"not": b.get("not", False), "headers": self.node(b["headers"], subst),
-                                              "body": self.block(b["body"], subst, ren, end, depth)} for b in s["branches"]],
-                     "else": None if s.get("else") is None else self.block(s["else"], subst, ren, end, depth)}]
-        if t == "switch":
-            return [{"t": "switch", "header": self.node(s["header"], subst),
-                     "cases": [{"default": c.get("default", False), "header": self.node(c.get("header"), subst),
-                                "body": self.block(c["body"], subst, ren, end, depth)} for c in s["cases"]]}]
-        if t in ("forever", "while", "for"):
-            d = {k: self.node(v, subst) for k, v in s.items() if k not in ("body", "init", "inc")}
-            if t == "for":
-                d["init"] = self.stmt(s["init"], subst, ren, end, depth)[0]
-                d["inc"] = self.stmt(s["inc"], subst, ren, end, depth)[0]
-            d["body"] = self.block(s["body"], subst, ren, end, depth)
-            return [d]
-        return [self.node(s, subst)]
-
-
-def inline_program(ast: dict, visible: dict[str, dict]) -> dict:
-    """macro-free program: every call of `ast`'s routines replaced by the body (recursively). `visible`: name -> macro"""
-    inl = Inliner(visible)
-    routines = []
-    for r in ast["routines"]:
-        if r.get("body") is None:
-            routines.append(copy.deepcopy(r))
-        else:
-            routines.append(dict(copy.deepcopy({k: v for k, v in r.items() if k != "body"}), body=inl.block(r["body"], {}, None, None, 0)))
-    return {"imports": [], "macros": [], "routines": routines}
-
-
-# ----------------------------------------------------------------------------------------------------------------------
-# family 1: every DAG shape x every definition order (plain bodies)
-# ----------------------------------------------------------------------------------------------------------------------
-def plain_dag_program(calls: list[list[int]], def_order: list[int], call_orders: list[list[int]] | None = None,
-                      interleave: bool = False, call_all: bool = True) -> dict:
-    """macro i = `macro m<i>($a) { In<i>($a); ~callee(...)...; Out<i>(); }`; the routine calls every macro nobody calls"""
-    n = len(calls)
-    macros = []
-    for i in range(n):
-        cs = list(calls[i]) if call_orders is None else list(call_orders[i])
-        body: list[dict] = [op(f"In{i}", V("$a"), I(i))]
-        for k, j in enumerate(cs):
-            body.append(call(f"m{j}", V("$a") if k % 2 == 0 else I(10 * i + j)))
-        body.append(op(f"Out{i}"))
-        macros.append({"name": f"m{i}", "params": ["$a"], "body": body})
-    called = {j for c in calls for j in c}
-    tops = [i for i in range(n) if i not in called] if call_all else [0]
-    rbody = [call(f"m{i}", I(100 + i)) for i in tops] + [{"t": "ctrl", "k": "end"}]
-    p: dict = {"imports": [], "macros": [macros[i] for i in def_order], "routines": [{"kind": "def", "id": 0, "body": rbody}]}
-    if interleave:
-        # routine between the macro definitions
-        k = len(def_order) // 2
-        p["order"] = list(range(k)) + [n] + list(range(k, n))
-    return p
-
-
-def single_file_case(ast: dict, name: str, tags: list[str], expect: str = "ok") -> dict:
-    return {"name": name, "tags": tags, "files": {"proj/main.exps": ast}, "main": "proj/main.exps", "lookup": [], "dirs": [], "expect": expect}
-
-
-def dag_groups(max_n: int, rnd: random.Random, max_orders: int | None = None, sample_shapes: int | None = None) -> list[dict]:
-    """one group per (shape, call order variant): {"shape", "info", "cases": [case per definition order]}"""
-    groups = []
-    for n in range(1, max_n + 1):
-        shapes = dag_shapes(n)
-        if sample_shapes is not None and len(shapes) > sample_shapes:
-            shapes = rnd.sample(shapes, sample_shapes)
-        for si, calls in enumerate(shapes):
-            info = shape_info(calls)
-            variants: list[list[list[int]] | None] = [None]
-            if info["multi_callee"]:
-                variants.append([list(reversed(c)) for c in calls])
-            for vi, co in enumerate(variants):
-                perms = list(itertools.permutations(range(n)))
-                if max_orders is not None and len(perms) > max_orders:
-                    perms = [perms[0]] + rnd.sample(perms[1:], max_orders - 1)
-                cases = []
-                for pi, perm in enumerate(perms):
-                    ast = plain_dag_program(calls, list(perm), co, interleave=(pi % 5 == 3))
-                    cases.append(single_file_case(ast, f"dag{n}.{si}.{vi}.{pi}", ["dag"]))
-                groups.append({"shape": calls, "info": info, "cases": cases, "n": n})
-    return groups
-
-
-# ----------------------------------------------------------------------------------------------------------------------
-# family 2: rich single-file programs
-# ----------------------------------------------------------------------------------------------------------------------
-def random_dag(rnd: random.Random, n: int, p: float) -> list[list[int]]:
-    calls = [[j for j in range(i + 1, n) if rnd.random() < p] for i in range(n)]
-    return calls
-
-
-def _body_from_proggen(rnd: random.Random, cfg: Cfg, stats: dict, macro: bool) -> list[dict]:
-    g = ProgGen(random.Random(rnd.getrandbits(48)), cfg)
-    p = g.program()
-    body = p["routines"][0]["body"]
-    for k, v in g.stats.items():
-        stats[k] = stats.get(k, 0) + v
-    if macro and body and body[-1]["t"] == "ctrl" and body[-1]["k"] in ("end", "hold") and rnd.random() < 0.8:
-        if rnd.random() < 0.5 or len(body) == 1:      # a function body needs at least one statement
-            body[-1] = {"t": "ctrl", "k": "return"}
-        else:
-            body.pop()
-    return body
-
-
-def _is_il_atom(x: Any) -> bool:
-    return isinstance(x, dict) and x.get("k") in ("int", "id", "var") and x.get("v") != PERF_VAR and "t" not in x and "h" not in x
-
-
-def substitute_params(node: Any, rnd: random.Random, il_params: list[str], any_params: list[str], p: float, in_args: bool = False) -> Any:
-    """replace atoms of a body by macro parameters: integer-like positions get il-class parameters only,
-    op / call argument positions get any parameter"""
-    if isinstance(node, list):
-        return [substitute_params(x, rnd, il_params, any_params, p, in_args) for x in node]
-    if not isinstance(node, dict):
-        return node
-    if "k" in node and "t" not in node and "h" not in node and "s" not in node and "c" not in node:
-        pool = (il_params + any_params) if in_args else (il_params if _is_il_atom(node) else [])
-        if pool and node.get("v") != PERF_VAR and rnd.random() < p:
-            return V(rnd.choice(pool))
-        return node
-    out = {}
-    for k, v in node.items():
-        if k == "args":
-            out[k] = substitute_params(v, rnd, il_params, any_params, p, True)
-        elif k in ("string", "index", "a", "b", "name", "params"):
-            out[k] = v
-        else:
-            out[k] = substitute_params(v, rnd, il_params, any_params, p, False)
-    return out
-
-
-class RichGen:
-    def __init__(self, rnd: random.Random, tier: str = "quick", allow_pos_nested: bool = False):
-        self.r = rnd
-        self.tier = tier
-        self.allow_pos_nested = allow_pos_nested
-        self.stats: dict[str, int] = {}
-
-    def hit(self, k: str, n: int = 1) -> None:
-        self.stats[k] = self.stats.get(k, 0) + n
-
-    def cfg(self, macro: bool = True) -> Cfg:
-        r = self.r
-        return Cfg(max_depth=r.choice([1, 2, 2, 3]), max_stmts=r.choice([2, 3, 4]), max_routines=1, coro=False,
-                   p_halt=r.choice([0.05, 0.15]), pos_marks=self.pos_ok or not macro)
-
-    def il_arg(self, own_il: list[str]) -> dict:
-        r = self.r
-        c = r.random()
-        if own_il and c < 0.35:
-            self.hit("arg_own_param")
-            return V(r.choice(own_il))
-        if c < 0.6:
-            self.hit("arg_int")
-            return I(r.choice([0, 1, 7, -2, 255, r.randint(0, 9999)]))
-        if c < 0.8:
-            self.hit("arg_const")
-            return C(r.choice(CONSTS))
-        self.hit("arg_gamevar")
-        return V(r.choice(GAME_VARS))
-
-    def any_arg(self, own_il: list[str], own_any: list[str]) -> dict:
-        r = self.r
-        c = r.random()
-        if c < 0.4:
-            return self.il_arg(own_il)
-        if own_any and c < 0.55:
-            self.hit("arg_own_param")
-            return V(r.choice(own_any))
-        if c < 0.7:
-            self.hit("arg_string")
-            return {"k": "str", "v": r.choice(["", "hi", "a b", "it's", 'q"q', "[c]"]), "quote": r.choice(['"', "'"])}
-        if c < 0.8:
-            self.hit("arg_langstring")
-            langs = r.sample(LANGS, r.randint(1, 2))
-            return {"k": "lang", "v": [[l, r.choice(["x", "Hello", ""])] for l in langs]}
-        if c < 0.9 and self.pos_ok:
-            self.hit("arg_posmark")
-            return {"k": "pos", "name": r.choice(["m0", "Mark"]), "x": r.choice(["0", "12", "3.5"]), "y": r.choice(["1", "20.5"]), "quote": "'"}
-        if c < 0.95:
-            self.hit("arg_decimal")
-            return {"k": "dec", "v": r.choice(["1.5", "-2.75", ".5"])}
-        return self.il_arg(own_il)
-
-    def make_call(self, callee: dict, own_il: list[str], own_any: list[str]) -> dict:
-        args = []
-        for pname, cls in zip(callee["params"], callee["_classes"]):
-            args.append(self.il_arg(own_il) if cls == "il" else self.any_arg(own_il, own_any))
-        if self.r.random() < 0.1:
-            self.hit("too_many_args")
-            args.append(self.il_arg(own_il))
-        return {"t": "macrocall", "name": callee["name"], "args": args, "trailing_comma": bool(args) and self.r.random() < 0.1}
-
-    def insert_calls(self, body: list, callees: list[dict], own_il: list[str], own_any: list[str], counts: list[int]) -> None:
-        for callee, k in zip(callees, counts):
-            for _ in range(k):
-                bl = blocks_of(body)
-                tgt = self.r.choice(bl) if self.r.random() < 0.6 else body
-                if tgt is not body:
-                    self.hit("call_in_block")
-                tgt.insert(self.r.randint(0, len(tgt)), self.make_call(callee, own_il, own_any))
-
-    def program(self, n: int | None = None) -> dict:
-        r = self.r
-        n = n if n is not None else r.choice([1, 2, 2, 3, 3, 4, 5, 6] + ([7, 9] if self.tier == "thorough" else []))
-        calls = random_dag(r, n, r.choice([0.3, 0.5, 0.8]))
-        info = shape_info(calls)
-        nested = any(calls)
-        # known finding macro_posmark_nested_hang: Position literals and nested macros of one file are combined only on request
-        self.pos_ok = (not nested) or self.allow_pos_nested
-        macros: list[dict] = []
-        for i in range(n):
-            np = r.choice([0, 1, 1, 2, 3])
-            params = r.sample(PARAM_POOL, np)
-            # parameters named like game variables that ProgGen bodies use ("$X", "$v2") may end up in integer-like
-            # positions of this or of a called macro's body (capture by name): they only receive integer-like arguments
-            classes = ["il" if p_ in GAME_VARS else r.choice(["il", "any"]) for p_ in params]
-            macros.append({"name": f"mac{i}", "params": params, "_classes": classes, "body": []})
-        for i in reversed(range(n)):
-            m = macros[i]
-            il = [p for p, c in zip(m["params"], m["_classes"]) if c == "il"]
-            an = [p for p, c in zip(m["params"], m["_classes"]) if c == "any"]
-            if r.random() < 0.25:
-                body: list[dict] = [op(f"Body{i}", *[V(p) for p in m["params"]])]
-                if r.random() < 0.5:
-                    body.append({"t": "if", "branches": [{"not": False, "headers": [{"h": "neg", "not": False, "kw": "debug"}],
-                                                          "body": [{"t": "ctrl", "k": "return"}]}], "else": None})
-                    body.append(op(f"After{i}"))
-                    self.hit("return_in_if")
-            else:
-                body = _body_from_proggen(r, self.cfg(), self.stats, True)
-            body = substitute_params(body, r, il, an, 0.5)
-            if m["params"] and r.random() < 0.7:
-                body.insert(r.randint(0, len(body)), op(f"Use{i}", *[V(p) for p in m["params"]]))
-            callees = [macros[j] for j in calls[i]]
-            self.insert_calls(body, callees, il, an, [r.choice([1, 1, 2]) for _ in callees])
-            m["body"] = body
-        nr = r.choice([1, 1, 2])
-        routines = []
-        called = {j for c in calls for j in c}
-        tops = [i for i in range(n) if i not in called]
-        unused = []
-        if len(tops) > 1 and r.random() < 0.3:
-            unused = [tops.pop()]
-            self.hit("unused_macro")
-        for ri in range(nr):
-            body = _body_from_proggen(r, self.cfg(False), self.stats, False)
-            mine = [macros[i] for i in tops if (i % nr) == ri] + ([macros[r.randrange(n)]] if r.random() < 0.5 else [])
-            self.insert_calls(body, mine, [], [], [r.choice([1, 1, 2, 3]) for _ in mine])
-            routines.append({"kind": "def", "id": ri, "body": body})
-        # labels of a routine must be defined in some routine: ProgGen makes every body self-contained, but two bodies
-        # may define the same name -> keep only the first definition's routine-level uniqueness by renaming per routine
-        for ri, rt in enumerate(routines):
-            if ri:
-                _rename_labels(rt["body"], f"r{ri}")
-        order = list(range(n))
-        r.shuffle(order)
-        p: dict = {"imports": [], "macros": [macros[i] for i in order], "routines": routines}
-        if r.random() < 0.3:
-            # routines interleaved with the macro definitions (routines keep their relative order)
-            slots = sorted(r.randint(0, n) for _ in range(nr))
-            items: list[int] = []
-            ri = 0
-            for k in range(n + 1):
-                while ri < nr and slots[ri] == k:
-                    items.append(n + ri)
-                    ri += 1
-                if k < n:
-                    items.append(k)
-            p["order"] = items
-        self.hit("programs")
-        for k in ("diamond", "shared_callee", "multi_callee", "unequal_paths", "chain"):
-            if info[k]:
-                self.hit("shape_" + k)
-        self.hit(f"depth_{min(info['depth'], 5)}")
-        if any(m["t"] == "label" for mm in macros for bl in blocks_of(mm["body"]) for m in bl):
-            self.hit("macro_with_labels")
-        if any(m["t"] == "ctrl" and m["k"] == "return" for mm in macros for bl in blocks_of(mm["body"]) for m in bl):
-            self.hit("macro_with_return")
-        return p
-
-
-def _rename_labels(body: list, suffix: str) -> None:
-    for bl in blocks_of(body):
-        for s in bl:
-            if s["t"] in ("label", "jump", "call"):
-                s["name"] = s["name"] + suffix
-
-
-def strip_private(ast: dict) -> dict:
-    """remove generator-private keys (`_classes`)"""
-    a = copy.deepcopy(ast)
-    for m in a.get("macros", []):
-        m.pop("_classes", None)
-    return a
-
-
-def rich_case(rnd: random.Random, tier: str, stats: dict, allow_pos_nested: bool = False, idx: int = 0) -> dict:
-    g = RichGen(rnd, tier, allow_pos_nested)
-    ast = strip_private(g.program())
-    for k, v in g.stats.items():
-        stats[k] = stats.get(k, 0) + v
-    return single_file_case(ast, f"rich{idx}", ["rich"])
-
-
-def order_variants(case: dict, rnd: random.Random, k: int) -> list[dict]:
-    """the same single-file program with other definition orders of its macros (all of them when there are <= k)"""
-    ast = case["files"][case["main"]]
-    n = len(ast["macros"])
-    perms = list(itertools.permutations(range(n)))
-    if len(perms) > k:
-        perms = rnd.sample(perms[1:], k)
-    else:
-        perms = perms[1:]
-    out = []
-    for pi, perm in enumerate(perms):
-        a = copy.deepcopy(ast)
-        a["macros"] = [a["macros"][i] for i in perm]
-        a.pop("order", None)
-        c = dict(case, files={case["main"]: a}, name=f"{case['name']}.o{pi}")
-        out.append(c)
-    return out
-
-
-# ----------------------------------------------------------------------------------------------------------------------
-# family 3: macros spread over files
-# ----------------------------------------------------------------------------------------------------------------------
-PLAIN_DIRS = ["proj", "proj/sub", "lib", "lib/deep", "proj/sub/inner"]
-LOOKUP_DIRS = ["L1", "L2", "L3"]
-
-
-def rel_import(from_file: str, to_file: str, rnd: random.Random) -> str:
-    rp = posixpath.relpath(to_file, posixpath.dirname(from_file))
-    if not rp.startswith(".."):
-        rp = "./" + rp
-    elif rnd.random() < 0.2:
-        rp = "./" + rp           # "./../lib/x.exps"
-    return rp
-
-
-def abs_import(to_file: str, rnd: random.Random) -> str:
-    c = rnd.random()
-    if c < 0.15:
-        return ROOT + "//" + to_file                      # doubled separator
-    if c < 0.3:
-        d, b = posixpath.split(to_file)
-        return ROOT + "/" + d + "/../" + posixpath.basename(d) + "/" + b if d and "/" not in d else ROOT + "/" + to_file
-    return ROOT + "/" + to_file
-
-
-def simple_macro(name: str, marker: str, params: list[str], callees: list[tuple[str, int]], rnd: random.Random, with_return: bool) -> dict:
-    body: list[dict] = [op(marker, *[V(p) for p in params])]
-    for cn, arity in callees:
-        args = [V(rnd.choice(params)) if params and rnd.random() < 0.5 else I(rnd.randint(0, 99)) for _ in range(arity)]
-        body.append(call(cn, *args))
-    if with_return:
-        body.append({"t": "if", "branches": [{"not": False, "headers": [{"h": "neg", "not": False, "kw": "edit"}],
-                                              "body": [{"t": "ctrl", "k": "return"}]}], "else": None})
-        body.append(op(marker + "_tail"))
-    return {"name": name, "params": params, "body": body}
-
-
-def layout_case(rnd: random.Random, idx: int, stats: dict, invalid: str | None = None) -> dict:
-    """a valid multi-file layout, or (invalid = "missing" | "cycle" | "routines_in_import" | "dot_component" |
-    "lookup_empty" | "dir_candidate") the same with one defect"""
-    def hit(k: str) -> None:
-        stats[k] = stats.get(k, 0) + 1
-    nf = rnd.choice([1, 2, 2, 3, 3, 4])
-    main = rnd.choice(["proj/main.exps", "proj/sub/main.exps"])
-    paths: list[str] = [main]
-    placement: list[str] = ["plain"]
-    variants: dict[int, list[str]] = {}      # lookup-placed file -> lookup dirs holding a variant
-    lookup_name: dict[int, str] = {}
-    for j in range(1, nf + 1):
-        if rnd.random() < 0.45 or invalid in ("dot_component", "lookup_empty", "dir_candidate") and j == 1:
-            placement.append("lookup")
-            nm = rnd.choice([f"f{j}.exps", f"pkg/f{j}.exps", f"pkg/deep/f{j}.exps"])
-            lookup_name[j] = nm
-            variants[j] = rnd.sample(LOOKUP_DIRS, rnd.choice([1, 1, 2, 3]))
-            paths.append("")   # decided by the lookup list below
-        else:
-            placement.append("plain")
-            paths.append(posixpath.join(rnd.choice(PLAIN_DIRS), f"f{j}.exps"))
-    lookup_dirs = list(LOOKUP_DIRS)
-    rnd.shuffle(lookup_dirs)
-    used = {d for vs in variants.values() for d in vs}
-    nlook = rnd.randint(1, 3)
-    lookup_dirs = [d for d in lookup_dirs if d in used] + [d for d in lookup_dirs if d not in used][:max(0, nlook - len(used))]
-    rnd.shuffle(lookup_dirs)
-    rel_lookup = rnd.random() < 0.12 and bool(variants)
-    lookup = [ROOT + "/" + d + ("/" if rnd.random() < 0.1 else "") for d in lookup_dirs]
-    for j, vs in variants.items():
-        first = next(d for d in lookup_dirs if d in vs)
-        paths[j] = posixpath.join(first, lookup_name[j])
-        if len(vs) > 1:
-            hit("shadowed_lookup_file")
-        if lookup_dirs.index(first) > 0:
-            hit("lookup_not_first_dir")
-    # import graph: file i imports some j > i; every file is imported by somebody
-    imports: dict[int, list[int]] = {i: [] for i in range(nf + 1)}
-    for j in range(1, nf + 1):
-        importers = [i for i in range(j) if rnd.random() < 0.5] or [rnd.randrange(j)]
-        for i in importers:
-            imports[i].append(j)
-    for i in imports:
-        rnd.shuffle(imports[i])
-    nimporters = {j: sum(1 for i in imports if j in imports[i]) for j in range(1, nf + 1)}
-    if any(v > 1 for v in nimporters.values()):
-        hit("diamond_import")
-    if any(imports[i] for i in range(1, nf + 1)):
-        hit("nested_import")
-    # visible macros per file (transitively)
-    vis: dict[int, list[int]] = {}
-
-    def closure(i: int) -> list[int]:
-        if i not in vis:
-            out: list[int] = []
-            for j in imports[i]:
-                for k in closure(j) + [j]:
-                    if k not in out:
-                        out.append(k)
-            vis[i] = out
-        return vis[i]
-    macros: dict[int, list[dict]] = {}
-    for j in reversed(range(nf + 1)):
-        ms = []
-        nm = rnd.choice([1, 2, 2, 3]) if j else rnd.choice([0, 1, 2])
-        visible_other = [m for k in closure(j) for m in macros[k]]
-        for k in reversed(range(nm)):
-            params = rnd.sample(["$a", "$b", "$x"], rnd.choice([0, 1, 2]))
-            callees = []
-            # same-file nesting (later macro of this file) and macros of imported files
-            for m in ms:
-                if rnd.random() < 0.35:
-                    callees.append((m["name"], len(m["params"])))
-            for m in visible_other:
-                if rnd.random() < 0.4:
-                    callees.append((m["name"], len(m["params"])))
-            ms.insert(0, simple_macro(f"f{j}_m{k}", f"F{j}M{k}", params, callees, rnd, rnd.random() < 0.2))
-        rnd.shuffle(ms)
-        macros[j] = ms
-    files: dict[str, dict] = {}
-    style_count: dict[str, int] = {}
-
-    def import_string(i: int, j: int) -> str:
-        if placement[j] == "lookup":
-            style_count["lookup"] = style_count.get("lookup", 0) + 1
-            return lookup_name[j]
-        if rnd.random() < 0.5:
-            style_count["relative"] = style_count.get("relative", 0) + 1
-            return rel_import(paths[i], paths[j], rnd)
-        style_count["absolute"] = style_count.get("absolute", 0) + 1
-        return abs_import(paths[j], rnd)
-    for i in range(nf + 1):
-        ast: dict = {"imports": [import_string(i, j) for j in imports[i]], "macros": macros[i], "routines": []}
-        files[paths[i]] = ast
-    # shadowed variants: the same macro names, different marker ops (they must NOT be read)
-    for j, vs in variants.items():
-        for d in vs:
-            p = posixpath.join(d, lookup_name[j])
-            if p not in files:
-                decoy = copy.deepcopy(files[paths[j]])
-                for m in decoy["macros"]:
-                    m["body"] = [op("DECOY_" + d, *[V(p_) for p_ in m["params"]])]
-                decoy["imports"] = []
-                files[p] = decoy
-    # routine of the main file: calls own macros and visible ones (also transitively visible ones)
-    mains = files[main]
-    callable_ = [m for m in macros[0]] + [m for k in closure(0) for m in macros[k]]
-    rbody: list[dict] = []
-    for m in callable_:
-        if rnd.random() < 0.7 or not rbody:
-            rbody.append(call(m["name"], *[I(rnd.randint(0, 50)) if rnd.random() < 0.7 else C(rnd.choice(CONSTS)) for _ in m["params"]]))
-    if any(m in [mm for k in closure(0) if k not in imports[0] for mm in macros[k]] for m in callable_):
-        hit("transitively_visible_macro_available")
-    rbody.append({"t": "ctrl", "k": "end"})
-    mains["routines"] = [{"kind": "def", "id": 0, "body": rbody}]
-    users = {posixpath.dirname(paths[i]) for i in range(nf + 1) if any(placement[j] == "lookup" for j in imports[i])}
-    if rel_lookup and users <= {posixpath.dirname(main)}:
-        # lookup paths given relative to the importing file's directory (behaviour of the code, not documented): only when
-        # every lookup-style import is written in a file of the main file's directory
-        hit("relative_lookup_path")
-        lookup = [posixpath.relpath(d, posixpath.dirname(main)) for d in lookup_dirs]
-    for k, v in style_count.items():
-        stats["import_" + k] = stats.get("import_" + k, 0) + v
-    case = {"name": f"layout{idx}", "tags": ["layout"], "files": files, "main": main, "lookup": lookup,
-            "dirs": [d for d in lookup_dirs], "expect": "ok"}
-    hit(f"lookup_paths_{len(lookup)}")
-    if invalid:
-        case = break_layout(case, invalid, rnd, paths, imports, placement, lookup_name, lookup_dirs)
-        hit("invalid_" + case["expect"])
-    return case
-
-
-def break_layout(case: dict, how: str, rnd: random.Random, paths: list[str], imports: dict, placement: list[str],
-                 lookup_name: dict, lookup_dirs: list[str]) -> dict:
-    case = copy.deepcopy(case)
-    files = case["files"]
-    case["tags"] = ["layout", "invalid"]
-    nf = len(paths) - 1
-    if how == "missing":
-        j = rnd.randint(1, nf)
-        if placement[j] == "lookup":
-            for d in LOOKUP_DIRS:
-                files.pop(posixpath.join(d, lookup_name[j]), None)
-        else:
-            files.pop(paths[j], None)
-        case["expect"] = "missing"
-    elif how == "cycle":
-        # some imported file imports one of its (transitive) importers again, or itself
-        j = rnd.randint(1, nf)
-        anc = [i for i in range(j) if j in _closure(imports, i)] + [j]
-        i = rnd.choice(anc)
-        files[paths[j]]["imports"].append(ROOT + "/" + paths[i])
-        case["expect"] = "cycle"
-    elif how == "routines_in_import":
-        j = rnd.randint(1, nf)
-        files[paths[j]]["routines"] = [{"kind": "def", "id": 0, "body": [op("InImport"), {"t": "ctrl", "k": "end"}]}]
-        case["expect"] = "routines_in_import"
-    elif how == "dot_component":
-        j = next(j for j in range(1, nf + 1) if placement[j] == "lookup")
-        nm = lookup_name[j]
-        bad = rnd.choice(["pkg/../" + nm, "x/./" + nm if "/" not in nm else nm.replace("/", "/./", 1), nm.replace("pkg/", "pkg/../pkg/") if "pkg/" in nm else "q/../" + nm])
-        for i, js in imports.items():
-            for k, jj in enumerate(js):
-                if jj == j:
-                    files[paths[i]]["imports"][k] = bad
-        case["expect"] = "dot_component"
-    elif how == "lookup_empty":
-        case["lookup"] = []
-        case["expect"] = "missing"
-    elif how == "dir_candidate":
-        # a DIRECTORY with the import's name in a lookup directory (L0, holding nothing else) that is searched before all others
-        j = next(j for j in range(1, nf + 1) if placement[j] == "lookup")
-        if case["lookup"] and not case["lookup"][0].startswith(ROOT):
-            case["lookup"] = [ROOT + "/" + d for d in lookup_dirs]      # keep every lookup path absolute here
-        case["lookup"] = [ROOT + "/L0"] + list(case["lookup"])
-        case["dirs"] = list(case["dirs"]) + [posixpath.join("L0", lookup_name[j])]
-        case["expect"] = "dir_candidate"
-    else:
-        raise ValueError(how)
-    return case
-
-
-def _closure(imports: dict, i: int) -> set:
-    out: set = set()
-    todo = list(imports[i])
-    while todo:
-        j = todo.pop()
-        if j not in out:
-            out.add(j)
-            todo += imports[j]
-    return out
-
-
-# ----------------------------------------------------------------------------------------------------------------------
-# direct queries to `_resolve_imported_file` (correspondence with lean/ESV/Macro/Import.lean on odd path spellings)
-# ----------------------------------------------------------------------------------------------------------------------
-_SEGS = ["zqa", "zqb", "zlib", "zx.exps", "zy.exps", "..", ".", "", "..zq", ".zh", "zqa", "zx.exps"]
-
-
-def _rand_path(rnd: random.Random, n_max: int = 4) -> str:
-    return "/".join(rnd.choice(_SEGS) for _ in range(rnd.randint(1, n_max)))
-
-
-def resolve_fuzz_case(rnd: random.Random) -> dict:
-    """a small tree (files and directories with names from a private alphabet) and queries with odd spellings: doubled and
-    trailing separators, '.' and '..' anywhere, names starting with dots, absolute/relative lookup paths, escapes above the root"""
-    files = sorted({posixpath.normpath(rnd.choice(["zqa", "zqb", "zlib", "zqa/zqb", "zlib/zqa", ""]) + "/" + rnd.choice(["zx.exps", "zy.exps"])).lstrip("/")
-                    for _ in range(rnd.randint(1, 5))})
-    dirs = sorted({rnd.choice(["zqa", "zqb/zqa", "zlib/zx.exps", "zqa/zqb/zlib", ".zh"]) for _ in range(rnd.randint(0, 3))})
-    dirs = [d for d in dirs if d not in files and not any(d.startswith(f + "/") for f in files)]
-    queries = []
-    for _ in range(rnd.randint(4, 10)):
-        d = ROOT + rnd.choice(["", "/", "//"]) + rnd.choice(["zqa", "zqa/zqb", "zqb/", "zlib/../zqa", "zqa//zqb", "."])
-        lookup = []
-        for _k in range(rnd.randint(0, 3)):
-            c = rnd.random()
-            if c < 0.6:
-                lookup.append(ROOT + "/" + _rand_path(rnd, 2))
-            elif c < 0.8:
-                lookup.append(_rand_path(rnd, 2))                 # relative lookup path
-            else:
-                lookup.append(rnd.choice(["", ".", "..", "/", ROOT + "//zlib/"]))
-        imports = []
-        for _k in range(rnd.choice([1, 1, 1, 2])):
-            c = rnd.random()
-            body = _rand_path(rnd)
-            if rnd.random() < 0.6:
-                # aim at an existing file (or directory), spelled oddly
-                segs = rnd.choice(files + dirs).split("/")
-                out_segs: list[str] = []
-                for sg in segs:
-                    r2 = rnd.random()
-                    if r2 < 0.15:
-                        out_segs += ["."]
-                    elif r2 < 0.3:
-                        out_segs += ["zqq", ".."]
-                    elif r2 < 0.4:
-                        out_segs += [""]
-                    out_segs.append(sg)
-                full = "/".join(out_segs)
-                if c >= 0.5 and lookup and rnd.random() < 0.7:
-                    # make some lookup path a prefix directory of the target
-                    k2 = rnd.randint(0, len(segs) - 1)
-                    lookup[rnd.randrange(len(lookup))] = ROOT + "/" + "/".join(segs[:k2]) + rnd.choice(["", "/"])
-                    full = "/".join(segs[k2:])
-                    if rnd.random() < 0.2:
-                        full = full.replace("/", "//", 1)
-                body = full
-                imports.append(rnd.choice(["./", "../", "./../", ".", ".."]) + body)
-            elif c < 0.5:
-                imports.append(ROOT + rnd.choice(["/", "//"]) + body)
-            else:
-                imports.append(body)
-        queries.append({"dir": d, "lookup": lookup, "imports": imports})
-    return {"files": files, "dirs": dirs, "queries": queries}
-
-
-# ----------------------------------------------------------------------------------------------------------------------
-# statically invalid single-file programs (must be rejected in the documented way)
-# ----------------------------------------------------------------------------------------------------------------------
-def error_cases(rnd: random.Random) -> list[dict]:
-    out = []
-    # macro cycles: direct, length 2, length 3, cycle not reachable from the routine
-    for k, spec in enumerate([[[0]], [[1], [0]], [[1], [2], [0]], [[], [2], [1]], [[1, 2], [2], [0]]]):
-        n = len(spec)
-        ast = plain_dag_program([[] for _ in range(n)], list(range(n)))
-        for i, cs in enumerate(spec):
-            ast["macros"][i]["body"][1:1] = [call(f"m{j}", I(1)) for j in cs]
-        ast["routines"][0]["body"] = [call("m0", I(1)), {"t": "ctrl", "k": "end"}]
-        perm = list(range(n))
-        rnd.shuffle(perm)
-        ast["macros"] = [ast["macros"][i] for i in perm]
-        out.append(single_file_case(ast, f"macro_cycle{k}", ["error"], "macro_cycle"))
-    # too few arguments
-    ast = {"imports": [], "macros": [{"name": "two", "params": ["$a", "$b"], "body": [op("X", V("$a"), V("$b"))]}],
-           "routines": [{"kind": "def", "id": 0, "body": [call("two", I(1)), {"t": "ctrl", "k": "end"}]}]}
-    out.append(single_file_case(ast, "too_few_args", ["error"], "too_few_args"))
-    ast = {"imports": [], "macros": [{"name": "two", "params": ["$a", "$b"], "body": [op("X", V("$a"), V("$b"))]},
-                                      {"name": "outer", "params": [], "body": [call("two")]}],
-           "routines": [{"kind": "def", "id": 0, "body": [call("outer"), {"t": "ctrl", "k": "end"}]}]}
-    out.append(single_file_case(ast, "too_few_args_nested", ["error"], "too_few_args"))
-    return out
-
-
-# ----------------------------------------------------------------------------------------------------------------------
-# hand-written cases that always run first
-# ----------------------------------------------------------------------------------------------------------------------
-def fixed_cases() -> list[dict]:
-    out = []
-    lab = lambda n: {"t": "label", "name": n}          # noqa: E731
-    jmp = lambda n: {"t": "jump", "name": n}           # noqa: E731
-    ifdbg = lambda body: {"t": "if", "branches": [{"not": False, "headers": [{"h": "neg", "not": False, "kw": "debug"}], "body": body}], "else": None}  # noqa: E731
-    # the same label name in two macros and in the routine; every expansion has its own copy
-    a = {"name": "ma", "params": ["$a"], "body": [lab("x"), op("A", V("$a")), ifdbg([jmp("x")])]}
-    b = {"name": "mb", "params": [], "body": [ifdbg([jmp("x")]), op("B1"), lab("x"), op("B2"), call("ma", I(5))]}
-    rt = {"kind": "def", "id": 0, "body": [call("ma", I(1)), lab("x"), op("R"), call("mb"), call("ma", I(2)), ifdbg([jmp("x")]), {"t": "ctrl", "k": "end"}]}
-    out.append(single_file_case({"imports": [], "macros": [a, b], "routines": [rt]}, "private_labels", ["fixed"]))
-    # return leaves only the macro: nested in if / loop / switch, and in a nested macro
-    inner = {"name": "inner", "params": ["$v"], "body": [
-        {"t": "while", "not": False, "header": {"h": "op", "left": V("$v"), "cmp": "<", "right": I(3), "value_of": False},
-         "body": [op("Loop", V("$v")), ifdbg([{"t": "ctrl", "k": "return"}]), op("LoopEnd")]}, op("AfterLoop")]}
-    outer = {"name": "outer", "params": ["$w"], "body": [op("O1"), call("inner", V("$w")), op("O2"), {"t": "ctrl", "k": "return"}, op("Dead")]}
-    rt = {"kind": "def", "id": 0, "body": [call("outer", V("$SCENARIO_MAIN")), op("Back"), call("inner", I(9)), op("Back2"), {"t": "ctrl", "k": "hold"}]}
-    out.append(single_file_case({"imports": [], "macros": [inner, outer], "routines": [rt]}, "return_leaves_macro", ["fixed"]))
-    # the specification's own example
-    ae = {"name": "another_example", "params": ["$anotherVariable"], "body": [op("another_print", V("$anotherVariable"))]}
-    ex = {"name": "example", "params": ["$variable1", "$variable2"], "body": [op("print", V("$variable1"), V("$variable2")), call("another_example", V("$variable1"))]}
-    rt = {"kind": "def", "id": 0, "body": [call("example", V("$SCENARIO_MAIN"), I(3)), call("example", C("ANOTHER_CONSTANT"), {"k": "str", "v": "A string"}),
-                                            call("another_example", {"k": "str", "v": "Another string"})]}
-    out.append(single_file_case({"imports": [], "macros": [ae, ex], "routines": [rt]}, "spec_example", ["fixed"]))
-    # assignment to a macro variable (spec warning box)
-    asg = {"name": "example", "params": ["$var"], "body": [{"t": "assign", "form": "regular", "target": V("$var"), "index": None, "op": "=", "value": I(3), "value_of": False}]}
-    rt = {"kind": "def", "id": 0, "body": [call("example", V("$SCENARIO_MAIN"))]}
-    out.append(single_file_case({"imports": [], "macros": [asg], "routines": [rt]}, "spec_assign_example", ["fixed"]))
-    # shadowing parameter names between caller and callee, parameter handed on, game variable captured by name
-    cal = {"name": "callee", "params": ["$a", "$b"], "body": [op("C", V("$a"), V("$b"), V("$c"))]}
-    car = {"name": "caller", "params": ["$b", "$c"], "body": [call("callee", V("$c"), V("$b")), call("callee", I(1), V("$a")), op("K", V("$a"), V("$b"), V("$c"))]}
-    rt = {"kind": "def", "id": 0, "body": [call("caller", I(10), I(20)), call("caller", V("$a"), V("$b"))]}
-    out.append(single_file_case({"imports": [], "macros": [cal, car], "routines": [rt]}, "param_shadowing", ["fixed"]))
-    # switch / break / fall-through in a macro called inside a switch case and a loop of the routine
-    sw = {"name": "sw", "params": ["$s"], "body": [{"t": "switch", "header": {"s": "var", "v": V("$s")}, "cases": [
-        {"default": False, "header": {"c": "value", "v": I(1)}, "body": [op("One"), {"t": "ctrl", "k": "break"}]},
-        {"default": False, "header": {"c": "value", "v": I(2)}, "body": [op("Two")]},
-        {"default": True, "header": None, "body": [op("Dflt"), {"t": "ctrl", "k": "return"}]}]}, op("AfterSw")]}
-    rt = {"kind": "def", "id": 0, "body": [{"t": "forever", "body": [
-        {"t": "switch", "header": {"s": "var", "v": V("$X")}, "cases": [
-            {"default": False, "header": {"c": "value", "v": I(7)}, "body": [call("sw", V("$X")), {"t": "ctrl", "k": "break"}]},
-            {"default": True, "header": None, "body": [call("sw", I(2)), {"t": "ctrl", "k": "break_loop"}]}]}, op("Tick")]}, {"t": "ctrl", "k": "end"}]}
-    out.append(single_file_case({"imports": [], "macros": [sw], "routines": [rt]}, "switch_in_macro", ["fixed"]))
-    # known finding (b): the minimal acyclic set the resolver orders wrongly
-    ast = plain_dag_program([[1, 2], [2], []], [0, 1, 2])
-    out.append(single_file_case(ast, "order_witness_top_mid_leaf", ["fixed", "order_witness"]))
-    return out
-
-
-def posmark_hang_witness() -> dict:
-    """known finding (c): minimal input"""
-    P = {"k": "pos", "name": "m", "x": "1", "y": "2", "quote": "'"}
-    a = {"name": "a", "params": [], "body": [op("Mark", P)]}
-    b = {"name": "b", "params": [], "body": [call("a")]}
-    rt = {"kind": "def", "id": 0, "body": [call("b"), {"t": "ctrl", "k": "end"}]}
-    return single_file_case({"imports": [], "macros": [a, b], "routines": [rt]}, "posmark_hang_witness", ["fixed", "posmark_nested"])
